@@ -136,8 +136,8 @@ Lemma links_ok_o_iff src dest :
 Proof.
   intros Hall. unfold links_ok_o, link_partition. rewrite forallb_forall. split.
   - intros H e1 e2 d1 d2 H1 H2 R1 R2 F1 F2.
-    assert (I1 : In e1 (filter (fun e => is_reg (fst e)) src)) by (apply filter_In; auto).
-    assert (I2 : In e2 (filter (fun e => is_reg (fst e)) src)) by (apply filter_In; auto).
+    assert (I1 : In e1 (filter (fun e => is_linkable (fst e)) src)) by (apply filter_In; auto).
+    assert (I2 : In e2 (filter (fun e => is_linkable (fst e)) src)) by (apply filter_In; auto).
     specialize (H _ I1). rewrite forallb_forall in H. specialize (H _ I2). rewrite F1, F2 in H.
     apply eqb_prop in H. split; intros E.
     + apply bytes_eqb_eq. rewrite H. apply N.eqb_eq; auto.
